@@ -184,6 +184,19 @@ func (g *Gen) rvalue(v *SV, st *State, pos token.Pos) string {
 				return v.LV.ref
 			}
 		}
+		// address of a field of an opaque library type (mutex, atomic, ...): a symbolic address that is
+		// a function of the enclosing object, enough to pass it as a receiver
+		if opaqueStruct(v.LV.typ()) && v.LV.kind == lvHeap {
+			fn := "addr." + sanitize(v.LV.typ().String())
+			g.declareFun(fn, []string{"Int", "Int"}, "Int")
+			fld := 0
+			if len(v.LV.path) > 0 {
+				fld = v.LV.path[len(v.LV.path)-1].field
+			}
+			n := g.freshConst("addr", "Int")
+			g.addFact(fmt.Sprintf("(and (= %s (%s %s %d)) (> %s 0))", n, fn, v.LV.ref, fld, n))
+			return n
+		}
 		if g.pa {
 			g.unmodelled["address of local/field used as value"] = true
 			n := g.freshConst("addr", "Int")
@@ -626,6 +639,9 @@ func (g *Gen) sliceOp(in *ssa.Slice, st *State, reach string) {
 			capv = max
 		} else {
 			g.safeObl("safe-slice", fmt.Sprintf("(and (<= 0 %[1]s) (<= %[1]s %[2]s) (<= %[2]s (s-cap %[3]s)))", lo, hi, x.S), reach, in.Pos(), "slice bounds in range")
+		}
+		if lo != "0" {
+			g.noteSliceLo(lo)
 		}
 		// Go: slicing a nil slice [0:0] yields nil; ref stays 0
 		g.define(in, fmt.Sprintf("(mk-slice (s-ref %[1]s) (+ (s-off %[1]s) %[2]s) (- %[3]s %[2]s) (- %[4]s %[2]s))", x.S, lo, hi, capv))
